@@ -56,6 +56,9 @@ SAVESIB = ("misc", "save_siblings", {})
 FULLIT = ("emit", "full_iter", {})
 MAPUNC = ("emit", "mapper_uncond", {})
 ITCFG = ("iters", "config_immutable", {})
+ENCW = ("emit", "encode_writes", {})
+KMIX = ("mutators", "kind_mix", {})
+SECORD = ("emit", "section_order", {})
 NEST = ("component", "nest_track", {})
 RECD = ("component", "rec_dispatch", {})
 SCOPED = ("misc", "scoped_pending", {})
@@ -89,33 +92,33 @@ PROPS = {
              "R-HASHORDER + zero-expected nondeterminism sources on the encode call graph.",
              "nothing of note for safe single-threaded Rust beyond the enumerated sources.",
              "resolved-callee enumeration + loop-body effect classification"),
-    "C05": P([("emit", "idempotent_encode", {}), CLEARS, CLEARCOH],
+    "C05": P([ENCW, SECORD, ("emit", "idempotent_encode", {}), CLEARS, CLEARCOH],
              "necessary: in-place remapping requires renormalising the ID sources; lowered special lists are cleared",
              "R-IDEMPOTENT-ENCODE, R-RESOLVE-CLEARS, R-CLEAR-COHERENT.",
              "byte equality of two encodings.",
              "effect analysis of the encode call graph"),
-    "C06": P([MAPUNC, ("reindex", "refers_exh", {"kind": "func"}), ("reindex", "fix_op_dispatch", {}), EM(("func",)), MAPARGS, MISS, RECALC, REORG,
+    "C06": P([FULLIT, KMIX, MAPUNC, ("reindex", "refers_exh", {"kind": "func"}), ("reindex", "fix_op_dispatch", {}), EM(("func",)), MAPARGS, MISS, RECALC, REORG,
               ("mutators", "coupled_import_order", {}), IDSPACE, FRESH, IMPORD],
              "necessary conditions for function references to stay bound: operator coverage, every function-index sink mapped, maps not swapped, loud failure on dangling references, re-indexing armed by every order-changing mutation, reorganise's position bookkeeping, import order coupling, no cross-space id casts",
              "R-REFERS-EXH(func), R-FIXOP-DISPATCH, R-EMIT-MAPPED(func), R-MAP-ARGS, R-MISS-LOUD, R-RECALC-SET, R-REORG-INV, R-COUPLED-IMPORT-ORDER, R-IDSPACE, R-FRESH-ID, R-IMPORT-ORDINAL.",
              "that reorganise computes the right permutation for every history (only its per-branch invariant preservation is checked); validity of the output.",
              "ADT-driven exhaustiveness + sink provenance + path rules"),
-    "C07": P([MAPUNC, ("reindex", "refers_exh", {"kind": "global"}), EM(("global",)), MAPARGS, MISS, RECALC, REORG, ("mutators", "who_may_call", {}), FRESH],
+    "C07": P([IDSPACE, KMIX, MAPUNC, ("reindex", "refers_exh", {"kind": "global"}), EM(("global",)), MAPARGS, MISS, RECALC, REORG, ("mutators", "who_may_call", {}), FRESH],
              "necessary conditions for global references to stay bound, incl. who may add to the globals collection",
              "R-REFERS-EXH(global), R-EMIT-MAPPED(global), R-MAP-ARGS, R-MISS-LOUD, R-RECALC-SET, R-REORG-INV, R-WHOMAYCALL, R-FRESH-ID.",
              "as C06.",
              "ADT-driven exhaustiveness + sink provenance + who-may-call"),
-    "C08": P([MAPUNC, ("reindex", "refers_exh", {"kind": "memory"}), ("reindex", "fix_op_dispatch", {}), EM(("memory",)), MAPARGS, MISS, RECALC, REORG, FRESH],
+    "C08": P([IDSPACE, KMIX, MAPUNC, ("reindex", "refers_exh", {"kind": "memory"}), ("reindex", "fix_op_dispatch", {}), EM(("memory",)), MAPARGS, MISS, RECALC, REORG, FRESH],
              "exhaustiveness of the memory re-index predicate/updater against the Operator ADT of the build; memory sinks mapped",
              "R-REFERS-EXH(memory), R-FIXOP-DISPATCH, R-EMIT-MAPPED(memory), R-MAP-ARGS, R-MISS-LOUD, R-RECALC-SET, R-REORG-INV, R-FRESH-ID.",
              "as C06.",
              "ADT-driven match exhaustiveness"),
-    "C09": P([("misc", "delete_pairing", {}), ("emit", "del_guard", {}), MISS, RECALC, REORG],
+    "C09": P([FULLIT, IDSPACE, KMIX, ("misc", "delete_pairing", {}), ("emit", "del_guard", {}), MISS, RECALC, REORG],
              "necessary: deletes address the right element and its import, emitters skip deleted, dangling references fail loudly, re-indexing armed, reorganise bookkeeping",
              "R-DELETE-PAIRING, R-DEL-GUARD, R-MISS-LOUD, R-RECALC-SET, R-REORG-INV.",
              "that every other entity keeps its identity over all histories.",
              "field-provenance pairing + guarded-sink analysis"),
-    "C10": P([("reindex", "refers_exh", {"kind": "func"}), WALK, IDSPACE, ("misc", "convert_flows", {}), RECALC, IMPORD, REORG, DELP, LCG],
+    "C10": P([FULLIT, ("reindex", "refers_exh", {"kind": "func"}), WALK, IDSPACE, ("misc", "convert_flows", {}), RECALC, IMPORD, REORG, DELP, LCG],
              "necessary: the slot flipped to Local is addressed in the function index space, under the signature guard, after the import was deleted",
              "R-IDSPACE, R-CONVERT-FLOW, R-RECALC-SET, R-IMPORT-ORDINAL, R-REORG-INV, R-DELETE-PAIRING (delete_func, which the conversion reuses, touches only the function and its import), R-LOCAL-COUNT-GUARD.",
              "that every former use executes the new body.",
@@ -130,7 +133,7 @@ PROPS = {
              "R-BUILDER-FLOW, R-COUNTER-INV, R-SWAP, R-TYPE-TABLE, R-LOCALS (declared locals), R-LOCAL-COUNT-GUARD.",
              "decoded equality.",
              "path enumeration + name-aligned flow lint"),
-    "C13": P([RECD, TFLOW, ("fields", "types_cover", {}), ("misc", "type_dedup", {}), ("hashorder", "hashorder", {}), ("mutators", "swap_flows", {}), TT_WE],
+    "C13": P([SCRATCH, RECD, TFLOW, ("fields", "types_cover", {}), ("misc", "type_dedup", {}), ("hashorder", "hashorder", {}), ("mutators", "swap_flows", {}), TT_WE],
              "necessary: Hash/Eq/encode agree on Types fields, the type store has one writer and dedups before inserting, the dedup winner does not depend on hash order",
              "R-TYPE-FIELD-FLOW, R-FIELDS-COVER(Types), R-TYPE-DEDUP, R-HASHORDER, R-SWAP, R-TYPE-TABLE.",
              "index stability with explicit rec groups (iso-recursive identity).",
@@ -205,7 +208,7 @@ PROPS = {
              "R-CUSTOM-SECTIONS.",
              "byte equality of the emitted sections over edit sequences.",
              "who-may-write + field pairing"),
-    "C29": P([FULLIT, EM((), names=True), ("misc", "name_dispatch", {}), ("fields", "name_pairing", {}), IMPORD],
+    "C29": P([SCRATCH, FULLIT, EM((), names=True), ("misc", "name_dispatch", {}), ("fields", "name_pairing", {}), IMPORD],
              "necessary: index-keyed name maps must not be emitted with pre-edit indices; naming dispatches on kind; each name kind re-emitted from where it was stored",
              "R-EMIT-MAPPED(names), R-NAME-DISPATCH, R-NAME-PAIRING, R-IMPORT-ORDINAL.",
              "name equality over histories.",
